@@ -35,7 +35,13 @@ def conv_meta(sec, key, val):
     if key in INT_KEYS:
         return int(val)
     if key in BOOL_KEYS:
-        return bool(val)
+        # documented boolean conversion: "True"/"False" (any case), numeric strings, numbers
+        if isinstance(val, str):
+            low = val.strip().lower()
+            if low in ("true", "false"):
+                return low == "true"
+            return bool(float(low))
+        return bool(float(val))
     if key in LCSTR_KEYS:
         return str(val).lower()
     if key in STR_KEYS:
